@@ -1,3 +1,6 @@
+// Package sync mirrors the part of sync that CompressedStream.go (or a variant of it) may use.
+// Under an active controlled scheduler WaitGroup/Mutex/Once operations are scheduling points;
+// otherwise they delegate to the real package (free-running and -race builds).
 package sync
 
 import (
@@ -6,7 +9,9 @@ import (
 	"github.com/flanglet/kanzi-go/v2/zverif/vcoop"
 )
 
-type Mutex = realsync.Mutex
+type Locker = realsync.Locker
+type Pool = realsync.Pool
+type Map = realsync.Map
 
 type WaitGroup struct {
 	st   vcoop.WaitGroupState
@@ -33,4 +38,78 @@ func (w *WaitGroup) Wait() {
 		return
 	}
 	vcoop.WgWait(&w.st)
+}
+
+type Mutex struct {
+	st   vcoop.MutexState
+	real realsync.Mutex
+}
+
+func (m *Mutex) Lock() {
+	if vcoop.Active() == nil {
+		m.real.Lock()
+		return
+	}
+	vcoop.MuLock(&m.st)
+}
+func (m *Mutex) TryLock() bool {
+	if vcoop.Active() == nil {
+		return m.real.TryLock()
+	}
+	return vcoop.MuTryLock(&m.st)
+}
+func (m *Mutex) Unlock() {
+	if vcoop.Active() == nil {
+		m.real.Unlock()
+		return
+	}
+	vcoop.MuUnlock(&m.st)
+}
+
+type RWMutex struct {
+	st   vcoop.MutexState
+	real realsync.RWMutex
+}
+
+func (m *RWMutex) Lock() {
+	if vcoop.Active() == nil {
+		m.real.Lock()
+		return
+	}
+	vcoop.MuLock(&m.st)
+}
+func (m *RWMutex) Unlock() {
+	if vcoop.Active() == nil {
+		m.real.Unlock()
+		return
+	}
+	vcoop.MuUnlock(&m.st)
+}
+func (m *RWMutex) RLock() {
+	if vcoop.Active() == nil {
+		m.real.RLock()
+		return
+	}
+	vcoop.MuRLock(&m.st)
+}
+func (m *RWMutex) RUnlock() {
+	if vcoop.Active() == nil {
+		m.real.RUnlock()
+		return
+	}
+	vcoop.MuRUnlock(&m.st)
+}
+
+type Once struct {
+	m    Mutex
+	done bool
+}
+
+func (o *Once) Do(f func()) {
+	o.m.Lock()
+	defer o.m.Unlock()
+	if !o.done {
+		o.done = true
+		f()
+	}
 }
